@@ -12,13 +12,18 @@
     (every `?` of bmc.rs/pdr.rs is the interpreter's short circuit); [bmc_prog] is the conversation
     of patronus/src/mc/bmc.rs with a solver that supports check-sat-assuming (z3, cvc5).
 
-    Two variants of the reader, selected by [variant]:
+    Three variants of the reader, selected by [variant]:
       [Cur]  what the code does today: at end-of-stream with open parentheses the balancing loop
              keeps reading 0 bytes forever (solver.rs:258-261), and the error message is cut out with
              the slice [start .. len-start-1] (solver.rs:267);
       [Fix]  the repaired reader (/repo a1319b1, acef723, acfb001): end-of-stream inside the loop is an
              error (SolverDead), the message is the text between the first and the last double quote,
-             and parentheses inside string literals / quoted symbols do not count.
+             and parentheses inside string literals / quoted symbols do not count;
+      [Fix2] [Fix] + patches/0019-fix-read-response-no-extra-blank.diff: the lines of one reply are
+             joined as they were read ([read_line] keeps each line's own line break), WITHOUT the
+             blank that solver.rs pushes before every continuation line ([joined]).  Everything else
+             is [Fix].  ([Fix] stays the model of /repo until that patch is committed there; the
+             driver constant [repo_reader] in ocaml/driver/c15.ml says which of the two mirrors /repo.)
 
     Strings are byte strings (Coq [string] = list of 8-bit [ascii]); Rust's [&str] slicing is by byte
     index and panics off a UTF-8 character boundary, which [is_char_boundary] reproduces.
@@ -196,18 +201,28 @@ Inductive res (A : Type) :=
 | OutOfFuel.                        (* the loop needs more than [fuel] iterations *)
 Arguments Ok {A}. Arguments Err {A}. Arguments Panic {A}. Arguments Blocked {A}. Arguments OutOfFuel {A}.
 
-Inductive variant := Cur | Fix.
+Inductive variant := Cur | Fix | Fix2.
 
 (** which parenthesis count the reader uses: the original code the naive one, the repaired code the
     string-aware one *)
 Definition count_v (v : variant) (s : string) : Z :=
-  match v with Cur => count_parens s | Fix => count_parens_aware s end.
+  match v with Cur => count_parens s | Fix | Fix2 => count_parens_aware s end.
+
+(** the response buffer after one more line [l] has been read into it.  [Cur], [Fix]:
+    `self.response.push(' '); self.stdout.read_line(&mut self.response)` - a blank, then the line
+    (which ends with its own line break).  [Fix2]: the push is gone. *)
+Definition joined (v : variant) (resp l : string) : string :=
+  match v with
+  | Cur | Fix => (resp ++ " " ++ l)%string
+  | Fix2 => (resp ++ l)%string
+  end.
 
 (* ------------------------------------------------------------------ read_response *)
 
 (** solver.rs:258-261
       while count_parens(&self.response) > 0 { self.response.push(' '); self.stdout.read_line(..)?; }
-    [Fix]: `if read_line(..)? == 0 { return Err(SolverDead) }`. *)
+    [Fix]: `if read_line(..)? == 0 { return Err(SolverDead) }`.
+    [Fix2]: the same without the push ([joined]). *)
 Fixpoint rr_loop (v : variant) (fuel : nat) (resp : string) (w : world) : res string :=
   if (0 <? count_v v resp)%Z then
     match fuel with
@@ -217,8 +232,8 @@ Fixpoint rr_loop (v : variant) (fuel : nat) (resp : string) (w : world) : res st
         | RBlock => Blocked
         | RLine l w' =>
             match v with
-            | Fix => if is_empty l then Err ESolverDead w' else rr_loop v f (resp ++ " " ++ l)%string w'
-            | Cur => rr_loop v f (resp ++ " " ++ l)%string w'
+            | Cur => rr_loop v f (joined v resp l) w'
+            | Fix | Fix2 => if is_empty l then Err ESolverDead w' else rr_loop v f (joined v resp l) w'
             end
         end
     end
@@ -249,7 +264,7 @@ Definition error_msg_fix (trimmed : string) : option string :=
   end.
 
 Definition error_msg (v : variant) (trimmed : string) : option string :=
-  match v with Cur => error_msg_cur trimmed | Fix => error_msg_fix trimmed end.
+  match v with Cur => error_msg_cur trimmed | Fix | Fix2 => error_msg_fix trimmed end.
 
 (** solver.rs:252-287.  The result is the raw response text (self.response). *)
 Definition read_response (v : variant) (fuel : nat) (w : world) : res string :=
